@@ -179,7 +179,16 @@ func (r *repository) addRulesTo(tree *radixtree.Tree[rule.Route], rules []rule.R
 
 func (r *repository) removeRulesFrom(tree *radixtree.Tree[rule.Route], tbdRules []rule.Rule) error {
 	for _, rul := range tbdRules {
+		// all routes of a rule sharing a path expression are removed by one deletion
+		removed := make(map[string]struct{}, len(rul.Routes()))
+
 		for _, route := range rul.Routes() {
+			if _, done := removed[route.Path()]; done {
+				continue
+			}
+
+			removed[route.Path()] = struct{}{}
+
 			if err := tree.Delete(
 				route.Path(),
 				radixtree.ValueMatcherFunc[rule.Route](func(route rule.Route) bool {
